@@ -1,7 +1,7 @@
 (* C19 -- Graph mutations keep the edge structure consistent; copies are
    independent; reversed views share state.  Property theorem only. *)
 From ArgMapper Require Import Base Graph GraphAlg GraphHist GraphSpec GraphStatements.
-From ArgMapper.proofs Require Import C19Refine.
+From ArgMapper.proofs Require Import C19Refine ReverseLaws.
 
 Theorem C19 : forall (K : Type) (E : EqDec K) (V : Type), @C19_statement K E V.
 Proof. exact C19_proof. Qed.
@@ -12,3 +12,24 @@ Local Open Scope Z_scope.
 Example C19_nonvacuous :
   ops_ok 0 [ONew; OAdd 0 1 1; OAdd 0 2 2; OAddEdge 0 1 2 5; OReverse 0; OCopy 0; OAddEdge 1 1 2 7; ORemove 2 1 : gop Z Z].
 Proof. simpl. repeat split; auto with arith. Qed.
+
+(* What a reversed view IS, for every graph that satisfies the representation
+   invariant (C19 shows every history of mutators keeps it), of any size:
+   reversing twice gives the graph back, the view keeps the invariant, and a
+   vertex b is reachable from a in the graph exactly when a is reachable from
+   b in the view -- with the same walk weights, hence the same shortest
+   distances.  (The resolver plans on the reversed call graph; C01/C05 use
+   the edge-level fact, these are the walk-level ones.) *)
+Theorem C19_reverse_involutive : forall (K V : Type) (g : graph K V), g_reverse (g_reverse g) = g.
+Proof. exact (fun K V => @reverse_involutive K V). Qed.
+Print Assumptions C19_reverse_involutive.
+
+Theorem C19_reverse_reach : forall (K : Type) (E : EqDec K) (V : Type) (g : graph K V) a b,
+  wf_graph g -> (reach g a b <-> reach (g_reverse g) b a).
+Proof. exact (fun K E V => @reverse_reach K E V). Qed.
+Print Assumptions C19_reverse_reach.
+
+Theorem C19_reverse_min_dist : forall (K : Type) (E : EqDec K) (V : Type) (g : graph K V) a b d,
+  wf_graph g -> (min_dist g a b d <-> min_dist (g_reverse g) b a d).
+Proof. exact (fun K E V => @reverse_min_dist K E V). Qed.
+Print Assumptions C19_reverse_min_dist.
